@@ -86,7 +86,7 @@
 //     `a[i:j]` is an opaque value preceded by the entry ("slice", [text with
 //     bounds]) and `*p = v` through an abstract pointer is an effect like a
 //     field assignment; `&T{…}` of abstract type is non-nil and, in trace mode
-//     with the file-level option "trace_new",
+//     with the file-level (or per-function) option "trace_new",
 //     the entry ("new T", ["K=" ++ value, …]) (nested literals flattened to
 //     "K.L=…", values of scalar type rendered, "_" otherwise); a
 //     field of abstract type of a translated struct (`mh.next`) is read as such
@@ -361,6 +361,8 @@ type TrFunc struct {
 	// the spec file has "abstract_bytes", and `xs[lo:hi]` on a list is take/drop
 	// also when the function is traced (instead of an opaque value).
 	ListSlices bool `json:"list_slices,omitempty"`
+	// TraceNew is the file-level option "trace_new" for this function only.
+	TraceNew bool `json:"trace_new,omitempty"`
 }
 
 type trSpecFile struct {
@@ -924,7 +926,7 @@ func (c *fctx) exprAs(e ast.Expr, to types.Type) ex {
 					}
 					return "(Function.const _ true (" + strings.Join(s, ", ") + "))"
 				})
-				if c.trace && c.t.traceNew {
+				if c.trace && (c.t.traceNew || c.spec.TraceNew) {
 					r.code += "«call:" + c.litEntry(cl) + "»"
 				}
 				return r
@@ -1098,7 +1100,7 @@ func (c *fctx) expr(e ast.Expr) ex {
 				}
 				return "(Function.const _ true (" + strings.Join(s, ", ") + "))"
 			})
-			if c.trace && c.t.traceNew {
+			if c.trace && (c.t.traceNew || c.spec.TraceNew) {
 				r.code += "«call:" + c.litEntry(cl) + "»"
 			}
 			return r
